@@ -74,13 +74,20 @@ fn read_all_inner(data: Vec<u8>) -> (Vec<String>, End, bool) {
 /// `HANG_SECS` is abandoned (the thread keeps spinning) and reported as a hang,
 /// so that one hanging input does not end the whole run.
 const HANG_SECS: u64 = 4;
+const HANG_RETRY_SECS: u64 = 90;
 fn read_all(data: &[u8]) -> (Vec<String>, End, bool) {
     let d = data.to_vec();
     let (tx, rx) = std::sync::mpsc::channel();
     std::thread::spawn(move || { let _ = tx.send(read_all_inner(d)); });
     match rx.recv_timeout(std::time::Duration::from_secs(HANG_SECS)) {
         Ok(x) => x,
-        Err(_) => (vec![], End::Hang, true),
+        // not back yet: this may be machine load, not a hang. Give the same
+        // thread a long second chance before calling it one (a reader that
+        // really spins never answers; one that was merely starved does).
+        Err(_) => match rx.recv_timeout(std::time::Duration::from_secs(HANG_RETRY_SECS)) {
+            Ok(x) => x,
+            Err(_) => (vec![], End::Hang, true),
+        },
     }
 }
 
@@ -167,7 +174,7 @@ fn totality(out: &mut Out, el: &Elig, kind: &str, data: &[u8]) -> (Vec<String>, 
     else { out.oracle_case(&c, !v.is_empty(), kind); }
     match &e {
         End::Panic(m) => out.check(false, panic_class(m, data), &c, m),
-        End::Hang => out.check(false, if has_overlong(data) { "overlong_utf8_hang" } else { "hang_reader" }, &c, "no result within 4 s"),
+        End::Hang => out.check(false, if has_overlong(data) { "overlong_utf8_hang" } else { "hang_reader" }, &c, "no result within 94 s"),
         End::Cap => out.check(false, "reader_no_progress", &c, "more entries than input octets"),
         End::Err(_) => out.check(pos, "error_without_position", &c, ""),
         End::Eof => out.check(true, "panic_reader", &c, ""),
@@ -579,7 +586,9 @@ fn all_mnemonics() -> Vec<String> {
 
 fn main() {
     let a = args();
-    let mut out = Out::new(&a, "C07", 30);
+    // the global watchdog only guards against the harness itself getting stuck;
+    // per-read hangs are detected (and survived) by read_all
+    let mut out = Out::new(&a, "C07", 300);
     let mut r = Rng::new(a.seed);
     let scale = a.scale * if a.thorough { 20 } else { 1 };
 
